@@ -387,6 +387,16 @@ Theorem C14_remove_kernel_backend :
   end.
 Proof. exact DynEffects.remove_kernel. Qed.
 
+(* ---- the premises are invariants: every tree that any sequence of the modelled operations (mkdirat / mknodat /
+   symlinkat, openat(O_CREAT), unlinkat, linkat, renameat2 with its three flag values, mkdir_all's loop, remove_all) can
+   produce from an empty root -- any order, any arguments, failing or not -- satisfies what the functional theorems
+   assume of a tree (closed2, ents_ok, uniq, dirs_ok, tree_ok) *)
+From PV Require DynInv.
+Theorem C14_every_reachable_tree_satisfies_the_premises :
+  forall ops, let s := fold_left DynInv.apply_op ops DynInv.root_only in
+  DynMkdir.closed2 s /\ DynRemove.ents_ok s /\ DynRemoveExact.uniq s /\ DynMkdirComplete.dirs_ok s /\ DynRemoveConc.tree_ok s.
+Proof. exact DynInv.reachable_premises. Qed.
+
 (* executed (non-vacuity): on a concrete tree the real model programs, run on the dynamic kernel by
    both backends, create a/b/new through the escaping link, refuse to rmdir a non-empty directory
    (ENOTEMPTY, tree unchanged), and move a directory with its content *)
@@ -407,6 +417,7 @@ Example C14_dynamic_runs :
     = [[b "a"]; [b "a"; b "up"]; [b "esc"]; [b "bb"]; [b "bb"; b "f"]].
 Proof. vm_compute. repeat split. Qed.
 
+Print Assumptions C14_every_reachable_tree_satisfies_the_premises.
 Print Assumptions C14_parent_and_name.
 Print Assumptions C14_split_shape.
 Print Assumptions C14_trailing_slash.
